@@ -104,11 +104,13 @@ UNIT_TRUSTED["packet_aspath"] = [
 UNIT_TRUSTED["packet_encode"] = [
     "prelude p_encode: the generic destination `B: BufMut + AsMut<[u8]>` is an append-only byte sequence (p_bytes) whose length `dst.as_mut().len()` reads (R11 helper vx_buf_len, a slice length <= isize::MAX) and whose bytes `(&mut dst.as_mut()[pos..]).write_u16(..)` overwrites in place (vx_buf_patch_u16, `requires pos + 2 <= len`); `put_bytes(0, n)` appends n zeros; Vec<u8> as BufMut appends to the vector",
     "Nlri::encode and the per-family NLRI encoders are NOT under contract: `item.nlri.encode(dst).unwrap()` appends nlri_wire(nlri), an uninterpreted byte string assumed non-empty and shorter than 64 KiB and assumed not to fail; Nexthop::to_bytes = 4 / 16 / 32 octets; Family::afi / safi uninterpreted; PathNlri opaque (path_id through an accessor shim); FnvHashMap obeys vstd's map model (fnv / Family key axioms)",
-    "NOT covered: do_encode (the message header and its length field, the OPEN capability block — `cap_len` is summed in a u8 —, the classic IPv4 NLRI / withdrawn sections, the attribute-length accumulation in a u16), encode_to's chunking loop, 2-byte AS down-conversion, and the round trip through the peer's decoder",
+    "do_encode's private callees enter with assumed contracts: Capability::encode / Attribute::encode_wire append cap_wire / attr_wire (uninterpreted byte strings) and return their length, Attribute::new_with_bin is Some for the well-known codes, the NEXT_HOP attribute built from 4 octets is 7 bytes on the wire, HoldTime / Notification / Nexthop / Ipv4Addr accessors uninterpreted; rewrites: R17 (`if c { s; continue; } rest` -> if / else in a for loop), R10 in match-arm pattern position, R13 for the Family(raw) pattern, `&entries[start..]` outlined (requires start <= len)",
+    "do_encode_pre (A-C04-1..4, the weakest precondition under which the narrow counters do not overflow and a frame can fit): OPEN capabilities <= 253 bytes (violated by real configurations: known finding F-C04-2); four-octet-AS session (the two-octet down-conversion branch is NOT covered); the attribute block plus one MP header fits the frame; IPv4 unicast NLRI take <= 5 bytes; start <= entries.len(); a NOTIFICATION's data fits the frame",
+    "NOT covered: encode_to's chunking loop as a whole (do_encode's contract gives its step: start <= next <= len), the 2-byte AS down-conversion, the per-family NLRI / attribute / capability encoders, and the round trip through the peer's decoder",
 ]
 
 # minimum number of functions that must produce obligations / of must-fail twins that must run
-FLOORS = {"daemon_fsm": 30, "daemon_gr": 4, "daemon_peer_tx": 7, "table_cmp": 20, "packet_validate": 1, "packet_parse": 1, "table_rpki": 3, "table_policy": 6, "daemon_export": 11, "packet_bmp": 6, "packet_mrt": 8, "packet_aspath": 8, "packet_encode": 3}
+FLOORS = {"daemon_fsm": 30, "daemon_gr": 4, "daemon_peer_tx": 7, "table_cmp": 20, "packet_validate": 1, "packet_parse": 1, "table_rpki": 3, "table_policy": 6, "daemon_export": 11, "packet_bmp": 6, "packet_mrt": 8, "packet_aspath": 8, "packet_encode": 4}
 TWIN_FLOORS = {"daemon_fsm": 8, "daemon_gr": 3, "daemon_peer_tx": 2, "table_cmp": 4, "packet_validate": 1, "packet_parse": 1, "table_rpki": 1, "table_policy": 1, "daemon_export": 1, "packet_bmp": 1, "packet_mrt": 1, "packet_aspath": 1, "packet_encode": 1}
 
 PLAN = {
